@@ -27,10 +27,16 @@ The shared implementation object is assumed to keep no mutable state that calls 
 docstring of serve_unix puts thread-safety of the implementation on the caller); the interpreter service used here
 has none.  A connection that finds all slots taken WAITS (documented: "accepted but queued until a slot is free"): its
 client observes the same results later, which is what the theorem says (its private run is a solo run of as many
-steps as it was allowed to take; once it is Done it is the complete solo run).  A client whose server side died
-(serve() raised: the method returned a non-Stream / a declared header is missing -- implementation faults, C04) sees
-TransportError (EOF / EPIPE); the wire core calls that observation EBlocked ("no more bytes will come"), the harness
-maps TransportError to it.  Such calls are generated only as the last call of a connection.
+steps as it was allowed to take; once it is Done it is the complete solo run).  "None is dropped" is checked on the
+implementation (every connection is served to the end of its script in every run) and proved in the form
+C41_waiting_not_dropped; the liveness statement "every run can be extended to one where all connections are Done" is
+NOT proved (only exemplified), see the report.
+Scripts: calls after which the connection is reusable (unary, iterate stop/close/cancel, exchange close/cancel);
+abandon only as a connection's last call; a stream whose init raises is called through its *_h method unless it is the
+last call (with a headerless method the error is only seen at the first read and the input sent by then is taken for
+the next request -- a single-connection matter, C01 key socket-headerless-init-outcome-unobserved-until-first-read).
+The except/finally path of _handle (serve() raising) is exercised by an injected fault: the gauge wrapper raises after
+the inner serve() returned for chosen connections; their slots must be released all the same.
 """
 from __future__ import annotations
 
@@ -48,8 +54,8 @@ META = {
     "level_text": "Coq theorems for every schedule of any length and any number of connections: each connection's private state "
     "(its whole client observation) equals a solo run of its own script, equals the complete solo run once the connection is "
     "done, which equals its calls run one after the other on the wire core (run_pipe); at most max_connections connections are "
-    "inside serve() at any point of any run; waiting connections are never dropped and every run can be extended to one where "
-    "all connections complete.  The model is tied to /repo by regenerating the semaphore/try-finally shape of "
+    "inside serve() at any point of any run; a waiting connection keeps its script untouched and waits only while max_connections "
+    "others are served.  The model is tied to /repo by regenerating the semaphore/try-finally shape of "
     "_serve_socket_threaded and by replaying the observed linearisation of real concurrent runs (unix + tcp, max_connections "
     "None/1/2, 2-3 connections) on the model step by step.",
     "level_note": "Not proved from source: that RpcServer.serve touches only per-call/per-connection state (stack locals, thread-local "
@@ -112,6 +118,10 @@ def gen_call(rng: Any, pool: dict[str, list[int]], progs: dict[int, dict[str, An
         return ["unary", pid]
     n = len(progs[pid]["steps"])
     h = "_h" if rng.random() < 0.4 else ""
+    if progs[pid]["init"] != "ok" and not last:
+        # a headerless stream whose init raised is only noticed at the first read; the input the client has sent by then
+        # is taken for the next request (single-connection matter: C01 key socket-headerless-init-outcome-unobserved-until-first-read)
+        h = "_h"
     k = rng.choice([0, 1, 2, n, n + 1])
     afters = ["close", "cancel"] + (["abandon"] if last else [])
     if kind == "producer":
@@ -119,17 +129,7 @@ def gen_call(rng: Any, pool: dict[str, list[int]], progs: dict[int, dict[str, An
     return ["exchange", "exchange" + h, pid, k, rng.choice(afters)]
 
 
-def is_crash_call(progs: dict[int, dict[str, Any]], call: list[Any]) -> bool:
-    """serve() does not survive this call (M_ConnIso.crashes)."""
-    if call[0] == "unary":
-        return False
-    p = progs[call[2]]
-    if p["init"] == "bad_return":
-        return True
-    return p["init"] == "ok" and call[1].endswith("_h") and p["header"] is None
-
-
-def gen_case(rng: Any, pid0: int, nconn: int, crash: bool) -> tuple[dict[int, dict[str, Any]], list[list[list[Any]]]]:
+def gen_case(rng: Any, pid0: int, nconn: int) -> tuple[dict[int, dict[str, Any]], list[list[list[Any]]]]:
     """A pool of programs shared by the connections (the same stream program is often open on several at once)."""
     progs: dict[int, dict[str, Any]] = {}
     pool: dict[str, list[int]] = {"unary": [], "producer": [], "exchange": []}
@@ -142,19 +142,6 @@ def gen_case(rng: Any, pid0: int, nconn: int, crash: bool) -> tuple[dict[int, di
     for _ in range(nconn):
         ncall = rng.choice([1, 2, 2, 3])
         scripts.append([gen_call(rng, pool, progs, last=(j == ncall - 1)) for j in range(ncall)])
-    if crash:
-        pid += 1
-        flavour = rng.choice(["bad_return", "no_header"])
-        progs[pid] = {"init_logs": gen_logs(rng), "init": "bad_return" if flavour == "bad_return" else "ok", "header": None if flavour == "no_header" else 3,
-                      "steps": [gen_step(rng, "emit")]}
-        victim = rng.randrange(nconn)
-        if flavour == "no_header":
-            call = [rng.choice(["iterate", "exchange"]), None, pid, 1, "close"]
-            call[1] = ("producer" if call[0] == "iterate" else "exchange") + "_h"
-        else:
-            op = rng.choice(["iterate", "exchange"])
-            call = [op, ("producer" if op == "iterate" else "exchange") + rng.choice(["", "_h"]), pid, rng.choice([1, 2]), rng.choice(["close", "cancel"])]
-        scripts[victim] = scripts[victim][: rng.choice([0, 1])] + [call]
     return progs, scripts
 
 
@@ -261,21 +248,21 @@ _OK = {"logs": [["INFO", "s", {}]], "emit": {"rows": 1, "meta": None}, "finish":
 _P_UNARY = {"logs": [["INFO", "u", {}]], "result": {"ok": 7}}
 _P_STREAM = {"init_logs": [["WARN", "i", {}]], "init": "ok", "header": 5, "steps": [_OK, _OK, _OK]}
 _P_RAISE = {"init_logs": [], "init": "ok", "header": 5, "steps": [_OK, {"logs": [], "emit": None, "finish": False, "raise": ["ValueError", "boom"]}]}
-_P_BAD = {"init_logs": [], "init": "bad_return", "header": 5, "steps": [_OK]}
-_P_NOHDR = {"init_logs": [], "init": "ok", "header": None, "steps": [_OK]}
 
 
-def fixed_scenarios() -> list[tuple[str, dict[int, dict[str, Any]], list[list[list[Any]]], list[int | None], list[int] | None]]:
-    progs = {1: _P_UNARY, 2: _P_STREAM, 3: _P_RAISE, 5: _P_BAD, 6: _P_NOHDR}
+def fixed_scenarios() -> list[tuple[str, dict[int, dict[str, Any]], list[list[list[Any]]], list[int | None], list[int] | None, tuple[int, ...]]]:
+    progs = {1: _P_UNARY, 2: _P_STREAM, 3: _P_RAISE}
     same_stream = [[["iterate", "producer", 2, 0, "stop"]], [["iterate", "producer", 2, 0, "stop"]], [["exchange", "exchange", 2, 3, "close"]]]
     # strict alternation: every connection has the same stream program open and ticks it in turn
     rr = [0, 0, 1, 1, 2, 2] + [0, 1, 2] * 8
+    three = [[["unary", 1], ["iterate", "producer_h", 2, 2, "close"]], [["exchange", "exchange", 2, 2, "cancel"], ["unary", 1]],
+             [["iterate", "producer", 3, 0, "stop"], ["iterate", "producer", 2, 1, "abandon"]]]
     return [
-        ("same-stream-program-interleaved", progs, same_stream, [None, 2, 1], rr),
-        ("queueing-three-connections", progs, [[["unary", 1], ["iterate", "producer_h", 2, 2, "close"]], [["exchange", "exchange", 2, 2, "cancel"], ["unary", 1]],
-                                               [["iterate", "producer", 3, 0, "stop"], ["iterate", "producer", 2, 1, "abandon"]]], [None, 1, 2], None),
-        ("crash-releases-slot", progs, [[["unary", 1], ["iterate", "producer", 5, 1, "close"]], [["unary", 1], ["unary", 1]], [["exchange", "exchange_h", 6, 1, "close"]]], [1, 2, None], None),
-        ("abandon-releases-slot", progs, [[["exchange", "exchange_h", 2, 1, "abandon"]], [["iterate", "producer", 2, 1, "abandon"]], [["unary", 1]]], [1, 2], None),
+        ("same-stream-program-interleaved", progs, same_stream, [None, 2, 1], rr, ()),
+        ("queueing-three-connections", progs, three, [None, 1, 2], None, ()),
+        # serve() of connections 0 and 2 raises when it ends (injected): _handle must still release their slots
+        ("serve-raises-releases-slot", progs, three, [1, 2], None, (0, 2)),
+        ("abandon-releases-slot", progs, [[["exchange", "exchange_h", 2, 1, "abandon"]], [["iterate", "producer", 2, 1, "abandon"]], [["unary", 1]]], [1, 2], None, ()),
     ]
 
 
@@ -284,7 +271,7 @@ def run(ctx: Any) -> None:
     ctx.prove(
         ["prop/P_C41.vo", "tie/T_ConnIso.vo"],
         {
-            "P_C41": ["C41_isolated", "C41_alone_is_solo", "C41_served_le_max_connections", "C41_waiting_not_dropped", "C41_all_can_complete"],
+            "P_C41": ["C41_isolated", "C41_alone_is_solo", "C41_served_le_max_connections", "C41_waiting_not_dropped"],
             "T_ConnIso": ["handle_shape_tie", "C41_source_served_le_max_connections"],
         },
     )
@@ -313,12 +300,12 @@ def run(ctx: Any) -> None:
     t_impl = time.time()
     case_no = 0
 
-    def one_case(name: str, kind: str, maxc: int | None, progs: dict[int, dict[str, Any]], scripts: list[list[list[Any]]], fixed: list[int] | None) -> None:
+    def one_case(name: str, kind: str, maxc: int | None, progs: dict[int, dict[str, Any]], scripts: list[list[list[Any]]], fixed: list[int] | None,
+                 serve_raises: tuple[int, ...] = ()) -> None:
         nonlocal case_no
         case_no += 1
-        crash = lambda call: is_crash_call(progs, call)  # noqa: E731
         h = handle(kind, maxc)
-        r = D.run_case(h, scripts, rng, f"k{case_no}", fixed_schedule=fixed, is_crash=crash)
+        r = D.run_case(h, scripts, rng, f"k{case_no}", fixed_schedule=fixed, serve_raises=serve_raises)
         ctx.count("impl_runs")
         repl = {"scenario": name, "transport": kind, "max_connections": maxc, "programs": progs, "scripts": scripts, "schedule": r["schedule"]}
         sched = r["schedule"]
@@ -333,7 +320,7 @@ def run(ctx: Any) -> None:
         ctx.tally("some_connection_waited", waited)
         for sc in scripts:
             for c in sc:
-                ctx.tally("call", c[0] + ("" if c[0] == "unary" else ":" + c[4]) + (":crash" if crash(c) else ""))
+                ctx.tally("call", c[0] + ("" if c[0] == "unary" else ":" + c[4]))
         # ---- anomalies of the run itself (hangs are observations, never harness hangs)
         for a in r["anomalies"]:
             key = "connection-hang" if a.startswith("hang") else a.split(":")[0]
@@ -348,7 +335,7 @@ def run(ctx: Any) -> None:
         for i, sc in enumerate(scripts):
             key = (kind, maxc, json.dumps([sc, [progs[c[1] if c[0] == 'unary' else c[2]] for c in sc]], sort_keys=True))
             if key not in solo_cache:
-                rs = D.run_case(h, [sc], rng, f"k{case_no}s{i}", is_crash=crash)
+                rs = D.run_case(h, [sc], rng, f"k{case_no}s{i}")
                 ctx.count("impl_runs")
                 ctx.count("solo_runs")
                 if rs["anomalies"]:
@@ -370,24 +357,23 @@ def run(ctx: Any) -> None:
         if case_no <= 3:
             ctx.sample({"scenario": name, "transport": kind, "max_connections": maxc, "scripts": scripts, "schedule": sched, "served": r["served"], "hw": r["hw"]})
 
-    for name, progs, scripts, maxcs, fixed in fixed_scenarios():
+    for name, progs, scripts, maxcs, fixed, raises in fixed_scenarios():
         for pid, p in progs.items():
             I.register(pid, p)
         for kind in ("unix", "tcp"):
             for maxc in maxcs:
-                one_case(name, kind, maxc, progs, scripts, fixed if (fixed is not None and maxc is None) else None)
+                one_case(name, kind, maxc, progs, scripts, fixed if (fixed is not None and maxc is None) else None, raises)
     n_random = 240 if thorough else 36
     pid0 = 100
     for j in range(n_random):
         nconn = rng.choice([2, 3, 3] + ([4] if thorough else []))
-        crash_case = rng.random() < 0.15
-        progs, scripts = gen_case(rng, pid0, nconn, crash_case)
+        progs, scripts = gen_case(rng, pid0, nconn)
         pid0 += 10
         for pid, p in progs.items():
             I.register(pid, p)
         kind = ("unix", "tcp")[j % 2]
         maxc = (None, 1, 2, 1, 2, None)[(j // 2) % 6] if not thorough else rng.choice([None, 1, 2, 3])
-        one_case("generated" + ("+crash" if crash_case else ""), kind, maxc, progs, scripts, None)
+        one_case("generated", kind, maxc, progs, scripts, None, tuple(i for i in range(nconn) if rng.random() < 0.1))
     ctx.log(f"implementation runs: {ctx.counters.get('impl_runs', 0)} in {time.time() - t_impl:.1f}s")
     for (kind, maxc), h in handles.items():
         if h.died:
